@@ -13,6 +13,9 @@ struct density { uint16_t k_; uint32_t dim_; uint32_t num_retained_; uint64_t n_
 uint64_t g_total;
 size_t g_h;   /* ghost: an arbitrary level (used modulo LCAP) */
 #define LEVEL_PUSH(s, h) do { (s)->level_size[h]++; g_total++; } while (0)
+#define LEVEL_APPEND(s, h, cnt) do { (s)->level_size[h] += (cnt); g_total += (cnt); } while (0)
+/* ghost for merge: prefix sums of the other sketch's level sizes; snapshots taken after the copy loop */
+uint64_t g_prefix[LCAP + 1]; uint64_t g_after_copy, g_lvl_after_copy, g_lvl_before; size_t g_levels_after_copy;
 #define LEVEL_CLEAR(s, h) do { g_total -= (s)->level_size[h]; (s)->level_size[h] = 0; } while (0)
 /* representation invariant: the retained count is the number of points held (num_retained_ is 32 bits wide: equality of the low 32 bits; see assumptions) */
 #define INV(s) ((s)->num_levels >= 1 && (s)->num_levels <= LCAP && (s)->num_retained_ == (uint32_t)g_total)
@@ -101,9 +104,60 @@ __CPROVER_loop_invariant(verif_exc == 0 && INV(self))
 '''},
 }
 
+is_empty = {
+    "name": "is_empty", "file": F, "members": MEMBERS, "match": r"bool %s::is_empty\(\) const" % DS, "sig": "bool is_empty(const struct density* self)", "nloops": 0,
+    "contract": "__CPROVER_requires(__CPROVER_r_ok(self, sizeof(*self)))\n__CPROVER_assigns()\n__CPROVER_ensures(__CPROVER_return_value == (self->num_retained_ == 0))\n",
+}
+
+merge = {
+    "name": "merge", "file": F, "members": MEMBERS, "match": r"void %s::merge\(FwdSketch&& other\)" % DS, "sig": "void merge(struct density* self, const struct density* other)", "refs": ["other"], "nloops": 3,
+    "pre_rules": [(r"other\.is_empty\(\)", "is_empty(&other)", 1), (r"other\.levels_\.size\(\)", "other.num_levels", 2),
+                  (r"std::copy\(\s*forward_begin\(conditional_forward<FwdSketch>\(other\.levels_\[([^\]]*)\]\)\),\s*forward_end\(conditional_forward<FwdSketch>\(other\.levels_\[\1\]\)\),\s*back_inserter\(levels_\[([^\]]*)\]\)\s*\);",
+                   r"LEVEL_APPEND(self, \2, other.level_size[\1]);", 1)],
+    "rules": LV, "methods": ["compact"], "propagate": ["compact"],
+    "inserts": [(r"self->num_retained_ \+= \(\*other\)\.num_retained_;", "g_after_copy = g_total; g_lvl_after_copy = self->level_size[g_h % LCAP]; g_levels_after_copy = self->num_levels;", "before", 1)],
+    "contract": BASE + r"""
+__CPROVER_requires(__CPROVER_is_fresh(other, sizeof(*other)) && INV(self) && self->k_ >= 1 && other->num_levels >= 1 && other->num_levels <= LCAP)
+/* the other sketch satisfies the same representation invariant: its retained count is the number of points it holds (g_prefix = prefix sums of its level sizes) */
+__CPROVER_requires(g_prefix[0] == 0 && __CPROVER_forall { size_t qi; (qi < LCAP) ==> g_prefix[qi + 1] == g_prefix[qi] + other->level_size[qi] })
+__CPROVER_requires(other->num_retained_ == (uint32_t)g_prefix[other->num_levels])
+/* ghost view of one arbitrary level of this sketch before the call (a level that does not exist yet holds nothing) */
+__CPROVER_requires(g_lvl_before == ((g_h % LCAP) < self->num_levels ? self->level_size[g_h % LCAP] : 0))
+""" + FRAME.replace("verif_exc,", "verif_exc, self->n_, g_after_copy, g_lvl_after_copy, g_levels_after_copy,") + r"""
+/* merging an empty sketch changes nothing */
+__CPROVER_ensures(other->num_retained_ == 0 ==> (verif_exc == 0 && self->n_ == __CPROVER_old(self->n_) && self->num_retained_ == __CPROVER_old(self->num_retained_) && self->num_levels == __CPROVER_old(self->num_levels) && g_total == __CPROVER_old(g_total)))
+/* a sketch of another dimension is refused and nothing changes */
+__CPROVER_ensures((other->num_retained_ != 0 && other->dim_ != self->dim_) ==> (verif_exc != 0 && self->n_ == __CPROVER_old(self->n_) && self->num_retained_ == __CPROVER_old(self->num_retained_) && self->num_levels == __CPROVER_old(self->num_levels) && g_total == __CPROVER_old(g_total)))
+/* an accepted merge: n is the sum, the retained count is exactly the number of points held and does not exceed k times the number of levels */
+__CPROVER_ensures((verif_exc == 0 && other->num_retained_ != 0) ==> (other->dim_ == self->dim_ && self->n_ == __CPROVER_old(self->n_) + other->n_ && INV(self) && (uint64_t)self->num_retained_ <= (uint64_t)self->k_ * self->num_levels
+    && self->num_levels >= __CPROVER_old(self->num_levels) && self->num_levels >= other->num_levels))
+/* before the closing compactions every point of the other sketch has been taken over at its own level: the points held are the sum, and an arbitrary level holds its own points plus the other's */
+__CPROVER_ensures((verif_exc == 0 && other->num_retained_ != 0) ==> (g_after_copy == __CPROVER_old(g_total) + g_prefix[other->num_levels]
+    && ((g_h % LCAP) < g_levels_after_copy ==> g_lvl_after_copy == g_lvl_before + ((g_h % LCAP) < other->num_levels ? other->level_size[g_h % LCAP] : 0))
+    && g_levels_after_copy == (__CPROVER_old(self->num_levels) > other->num_levels ? __CPROVER_old(self->num_levels) : other->num_levels)))
+""",
+    "loops": {1: r"""
+__CPROVER_assigns(verif_exc, self->num_levels, __CPROVER_object_upto(self->level_size, sizeof(self->level_size)))
+__CPROVER_loop_invariant(verif_exc == 0 && self->num_levels >= __CPROVER_loop_entry(self->num_levels) && self->num_levels <= LCAP)
+__CPROVER_loop_invariant(self->num_levels == __CPROVER_loop_entry(self->num_levels) || self->num_levels <= other->num_levels)
+__CPROVER_loop_invariant(g_lvl_before == ((g_h % LCAP) < self->num_levels ? self->level_size[g_h % LCAP] : 0))
+__CPROVER_decreases(LCAP - self->num_levels)
+""", 2: r"""
+__CPROVER_assigns(height, g_total, __CPROVER_object_upto(self->level_size, sizeof(self->level_size)))
+__CPROVER_loop_invariant(height <= other->num_levels && g_total == __CPROVER_loop_entry(g_total) + g_prefix[height])
+__CPROVER_loop_invariant((g_h % LCAP) < self->num_levels ==> self->level_size[g_h % LCAP] == g_lvl_before + ((g_h % LCAP) < height ? other->level_size[g_h % LCAP] : 0))
+__CPROVER_decreases(other->num_levels - height)
+""", 3: r"""
+__CPROVER_assigns(verif_exc, self->num_retained_, self->num_levels, g_total, __CPROVER_object_upto(self->level_size, sizeof(self->level_size)))
+__CPROVER_loop_invariant(verif_exc == 0 && INV(self) && self->num_levels >= g_levels_after_copy)
+"""},
+}
+
 HARNESS = r'''
 void h_compact_level(void) { struct density* s = malloc(sizeof(*s)); verif_exc = 0; compact_level(s, nondet_u32()); VERIF_CANARY_POINT; }
 void h_compact(void) { struct density* s = malloc(sizeof(*s)); verif_exc = 0; compact(s); VERIF_CANARY_POINT; }
+void h_merge(void) { struct density* s = malloc(sizeof(*s)); struct density* o = malloc(sizeof(*o)); verif_exc = 0; merge(s, o); VERIF_CANARY_POINT; }
+void h_is_empty(void) { struct density* s = malloc(sizeof(*s)); is_empty(s); VERIF_CANARY_POINT; }
 void h_update(void) { struct density* s = malloc(sizeof(*s)); struct point* p = malloc(sizeof(*p)); verif_exc = 0; update(s, p); VERIF_CANARY_POINT; }
 '''
 UNIT = {
@@ -111,10 +165,12 @@ UNIT = {
     "clause": "density_sketch update, compact and compact_level on the level sizes: a point of the wrong dimension is refused with nothing changed; an accepted point adds 1 to n and is held "
               "at level 0; the retained count always equals the number of points held in the levels (what iteration visits) and after an update does not exceed k times the number of levels; "
               "compact_level empties its level, moves the selected points one level up, drops the others and changes no other level",
-    "prelude": PRELUDE, "parts": [compact_level, compact, update], "harness": HARNESS,
+    "prelude": PRELUDE, "parts": [compact_level, compact, update, is_empty, merge], "harness": HARNESS,
     "jobs": [{"name": "compact_level", "entry": "h_compact_level", "enforce": "compact_level", "replace": ["random_bit", "kernel_eval"], "loops": True, "expect_loop_steps": 3, "timeout": 900},
              {"name": "compact", "entry": "h_compact", "enforce": "compact", "replace": ["compact_level"], "loops": True, "expect_loop_steps": 1, "timeout": 900},
-             {"name": "update", "entry": "h_update", "enforce": "update", "replace": ["compact"], "loops": True, "expect_loop_steps": 1, "timeout": 900}],
+             {"name": "update", "entry": "h_update", "enforce": "update", "replace": ["compact"], "loops": True, "expect_loop_steps": 1, "timeout": 900},
+             {"name": "is_empty", "entry": "h_is_empty", "enforce": "is_empty", "timeout": 300},
+             {"name": "merge", "entry": "h_merge", "enforce": "merge", "replace": ["compact", "is_empty"], "loops": True, "expect_loop_steps": 3, "timeout": 900}],
     "assumptions": ["levels_ is represented by its level sizes (point data, shuffle and kernel values dropped: the kernel returns any value, every selection pattern is covered)",
                     "at most 64 levels (a sketch needs at least 64 * k retained points to get there): pushing one more level is treated as the container's exception path", "num_retained_ is 32 bits wide: the invariant is equality with the low 32 bits of the number of points held (g_total, 64 bits); equality as integers needs fewer than 2^32 points held, which is not proved (each point is a heap-allocated vector)",
                     "termination of compact_level's loops over a level is not proved (they use a 32-bit counter against a size_t size; sizes below 2^32 are not an invariant the contracts can carry)",
